@@ -2828,6 +2828,8 @@ class PlateSlicer(Slicer):
         else:
             different = False
             to.plate = frm.plate = deepcopy(to.plate)
+            if set(map(id, frm.get().flatten())) & set(map(id, to.get().flatten())):
+                raise ValueError("Source and destination slices of the same plate must not overlap.")
 
         if frm.size == 1:
             # Source from the single element in frm
